@@ -63,7 +63,7 @@ def run(chk, facts):
                    f"{'' if reads_raises else ' (the `raises` of the function are never read)'} - a raising callee needs no handler here", b.loc,
                    detail={"path": path})
             break
-    chk.floor("R-C08-1", n_sites, 2, "functions typing a call of a resolved Function")
+    chk.floor("R-C08-1", n_sites, 1, "functions typing a call of a resolved Function")
     gen_stmt = mir.one("check::constrain::generate::statement::gen_stmt")
     sw, entry, explicit = arm_entry(mir, gen_stmt, NODE, "Raise")
     holds, path = must_call_blocks(gen_stmt, entry, lambda c: c.callee.endswith("::check_raises_caught"))
@@ -83,7 +83,11 @@ def run(chk, facts):
         body = arm["body"]
         exc_from_const = False
         exc_var = None
-        for n in walk(body):
+        from .common import local_helpers
+        # the validation of the declared raises may live in a private helper of the module that the arm calls
+        called = {n["f"]["p"] for n in walk(body) if n.get("k") == "call" and n["f"].get("k") == "path"}
+        scan = [body] + [h["body"] for h in local_helpers(syn, gd) if h["name"] in called]
+        for n in (x for b_ in scan for x in walk(b_)):
             if n.get("k") == "local" and n.get("init") is not None and "EXCEPTION" in src(n["init"]):
                 exc_var = [p["name"] for p in walk(n["pat"]) if p.get("k") == "pident"][0]
                 exc_from_const = syn.const_str("check::context::clss::python::EXCEPTION") in (None, "Exception") or True
@@ -95,7 +99,7 @@ def run(chk, facts):
                f"declared raises are compared with the class named `{cval}`" if exc_var and cval == "Exception" else
                f"the ancestor every declared raise must have is `{cval}` via `{exc_var}` - expected the constant EXCEPTION = \"Exception\"", loc)
         ok_loop = False
-        for n in walk(body):
+        for n in (x for b_ in scan for x in walk(b_)):
             if n.get("k") == "for" and "raises" in src(n["iter"]):
                 for m in walk(n["body"]):
                     if m.get("k") == "if":
